@@ -79,7 +79,7 @@ def check(ctx, env):
     st["reachable_functions"] = len(seen)
     st["entry_points"] = len(entries)
     ctx.extra["panic_sites"] = st
-    ctx.floor("R19.1", "panic sites inventoried", st["sites"], 150)
+    ctx.floor("R19.1", "panic sites inventoried", st["sites"], 120)
     r19_2_shared_pointers(ctx, prog)
     r19_3_error_code_invariant(ctx, prog)
     if env.tier == "thorough":
